@@ -12,6 +12,7 @@
 -/
 import Edn.Proofs.Complete
 import Edn.Proofs.Str
+import Edn.Proofs.IdentSound
 
 namespace Edn.Properties.C03
 open Edn.Model Edn.Spec Edn.Proofs
@@ -55,5 +56,34 @@ example : ∃ s, s = "[nil #_true ;c\n(1)]".toUTF8.toList ∧
   refine ⟨_, ?_, .vec 1 _ _ (.cons 1 _ _ "nil".toUTF8.toList [0x20] _ (.nil 1) (.ws 0x20 [] (by decide +kernel) .nil) (by decide) (by decide)
     (.last 1 _ _ [] hd .nil))⟩
   decide +kernel
+
+/-- Identifier tokens, exactness (every configuration, every token length - the 16-byte block
+    scanner and the scalar tail agree): the identifier reader returns a value **iff** the maximal
+    run of non-delimiter bytes at the cursor is lexically well-formed (`IdentLex`: non-empty, no
+    `::`) and denotes it (`IdentDenotes`: `nil` / `true` / `false`, keyword, symbol, with the
+    namespace split at the first `/`); it consumes exactly that run and records no reader call. -/
+theorem identifier_reader_is_the_grammar (ctx : Ctx) (tok rest : Bytes) (cl : List Call)
+    (hne : ∀ c ∈ tok, isDelim c = false) (hr : rest = [] ∨ ∃ c t, rest = c :: t ∧ isDelim c = true) (a : Val) :
+    (∃ v, readIdentifier ctx { rest := tok ++ rest, calls := cl } = .ok v { rest := rest, calls := cl } ∧ strip v = a) ↔
+      (IdentLex tok ∧ IdentDenotes tok a) := by
+  constructor
+  · rintro ⟨v, hv, rfl⟩
+    by_cases hgood : IdentLex tok ∧ ∃ a, IdentDenotes tok a
+    · obtain ⟨hl, a', hd⟩ := hgood
+      obtain ⟨v', hv', hsv⟩ := readIdentifier_complete ctx tok rest cl a' hl hr hd
+      rw [hv] at hv'
+      cases hv'
+      exact ⟨hl, hsv ▸ hd⟩
+    · obtain ⟨e, st', he, -⟩ := readIdentifier_rejects ctx tok rest cl hne hr hgood
+      rw [hv] at he
+      cases he
+  · rintro ⟨hl, hd⟩
+    exact readIdentifier_complete ctx tok rest cl a hl hr hd
+
+/-- … and whatever the identifier reader accepts, from any cursor, is such a token -/
+theorem identifier_reader_sound (ctx : Ctx) (st st' : St) (v : Val) (h : readIdentifier ctx st = .ok v st') :
+    ∃ tok, st.rest = tok ++ st'.rest ∧ st'.calls = st.calls ∧ IdentLex tok ∧
+      (st'.rest = [] ∨ ∃ c t, st'.rest = c :: t ∧ isDelim c = true) ∧ IdentDenotes tok (strip v) :=
+  readIdentifier_sound ctx st st' v h
 
 end Edn.Properties.C03
